@@ -12,11 +12,27 @@ BASE_NOTE = ("Trusted: Coq 8.16.1 kernel + VM; axioms as printed by Print Assump
 
 # id -> (technique, level text, extra note)
 CLAIMED = {
-    "C03": ("Coq theorem C03_integrate (DAG-level, any semiring, any linear functional) + correspondence of integrate_m with "
-            "cirkit integrate by exact in-Coq evaluation + brute-force/quadrature oracle on compiled circuits",
+    "C03": ("Coq theorem C03_integrate (DAG-level, any semiring, any linear functional, input/sum/Hadamard/Kronecker nodes) + "
+            "correspondence of integrate_m with cirkit integrate by exact in-Coq evaluation + brute-force/quadrature oracle on compiled circuits",
             "Machine-checked proof on the model for all circuits/parameters/inputs; the tie to the code is a sampled "
             "correspondence (model operator vs implementation operator evaluated exactly inside Coq) plus a direct oracle.",
             "Gaussian integral = 1 is an analytic hypothesis of the continuous instance."),
+    "C04": ("Coq theorems C04_multiply / C04_outputs (every pair node of the product circuit = Kronecker product of the operands' values) + "
+            "correspondence of multiply_m with cirkit multiply inside Coq + product oracle on compiled circuits",
+            "Machine-checked proof on the semantic model for all circuits; sampled correspondence and oracle tie it to the code.",
+            "The Kronecker x Kronecker permutation rule and the per-input-layer product rules are checked per instance (correspondence), not proved."),
+    "C05": ("Coq theorems C05_differentiate / C05_outputs_sorted against an abstract iterated partial-derivative operator + "
+            "correspondence of differentiate_m with cirkit differentiate inside Coq + autograd oracle on compiled circuits",
+            "Machine-checked proof on the semantic model (any order through the abstraction); sampled correspondence and oracle tie it to the code.",
+            "That PolynomialDifferential computes the k-th formal derivative is checked per instance; torch autograd trusted as oracle."),
+    "C06": ("Coq theorems C06_evidence, C06_evidence_scope, C06_concatenate(_nth) + correspondence inside Coq + oracle on compiled circuits under all flags",
+            "Machine-checked proof on the semantic model for all circuits and observations; sampled correspondence ties it to the code.", ""),
+    "C07": ("Coq theorems C07_conjugate, C07_involutive, C07_real_identity over any semiring endomorphism, instantiated at Gaussian rationals + "
+            "correspondence inside Coq with complex parameters + oracle on compiled circuits",
+            "Machine-checked proof on the semantic model; sampled correspondence ties it to the code.", ""),
+    "C08": ("Coq theorems on the executable predicates (iff-specifications, soundness and completeness, symmetry, invariance under input order "
+            "and injective renaming) + exact comparison of the predicates with cirkit's on generated circuits and pairs + set-based oracles",
+            "Machine-checked proof that the model predicates meet the definitions; the implementation is compared with them exactly on every generated case.", ""),
 }
 
 NOT_YET = {}
